@@ -32,6 +32,7 @@ def check(ctx, tier):
     sort_rules(ctx, tk)
     unique_rules(ctx, tk)
     accumulate_table(ctx, tk)
+    scan_and_undo_exact(ctx, tk)
     diff_rules(ctx, tk)
     hazards.h3_diff_as_comparison(ctx, tk, "C07.g", fs)
     hazards.h1_buffered_updates(ctx, tk, "C07.g", fs)
@@ -203,6 +204,44 @@ def accumulate_table(ctx, tk):
         ctx.decide("C07.e", f, what, accepted <= keys, "accepted %s, table has %s: %s would raise KeyError" % (sorted(accepted), sorted(keys), sorted(accepted - keys)),
                    key="table", engine="E6")
         ctx.decide("C07.e", f, "every INVERSE_FUNCS entry is a pair (inverse, forward)", pairs_ok, key="pairs", engine="E6")
+
+
+def scan_and_undo_exact(ctx, tk):
+    """the row accumulate runs ONE scan over the whole buffer and undoes each row's offset with the inverse ufunc:
+    (prefix + x) - prefix == x holds in modular integer arithmetic (and for xor), not in floating point, where a large
+    value in an earlier row cancels the later rows ([[1e16], [1.0, 1.0]] accumulates to [0.0, 0.0])"""
+    from ..guards import reachable_under
+    f = ctx.func(RA + "_accumulate")
+    fa = ctx.fa(f)
+    subj = lambda t: (t.k == "attr" and t.a[1] == "dtype") or t.k == "param"
+    calls = [n for n, c in find_calls(fa, lambda c: c.a[0].k == "attr" and c.a[0].a[1] == "_row_accumulate")]
+    what = "the scan-and-undo row accumulate is reached only for exact (integer / bool) arithmetic"
+    if not calls:
+        ctx.unknown("C07.e", f, what, "call of the generic row accumulate not found", key="exact", engine="KB")
+        return
+    reach = reachable_under(fa, "floating", subj)
+    bad = [n for n in calls if n.id in reach]
+    # `if is_float and self.size: <row by row>` - what falls through for floats has no cells
+    from ..guards import dtype_truth
+    still = []
+    for n in bad:
+        only_empty = False
+        for test, truth in fa.cfg.facts_at(n):
+            if truth or test.kind != "test":
+                continue
+            t = fa.term(test.ast, test)
+            if t.k == "bool" and t.a[0] == "and":
+                fl = [x for x in t.a[1] if (dtype_truth(x, subj) or set()) >= {"floating"}]
+                sz = [x for x in t.a[1] if (x.k == "attr" and x.a[1] == "size") or (x.k == "call" and call_name(x) == "len")]
+                if fl and sz and len(fl) + len(sz) == len(t.a[1]):
+                    only_empty = True
+        if not only_empty:
+            still.append(n)
+    bad = still
+    tested = any(any(x.k == "call" and (attr_chain(x.a[0]) or ("",))[-1] == "issubdtype" for x in walk(fa.term(n.ast, n))) for n in fa.cfg.nodes if n.kind == "test" and fa.cfg.is_reachable(n))
+    ctx.decide("C07.e", f, what, (False if not tested else None) if bad else True,
+               "`%s` is reached for floating-point data: the offsets of earlier rows are added and subtracted again, which is not exact in floating point" % (
+                   ast.unparse(bad[0].ast)[:80] if bad else "",), node=(bad[0].ast if bad else None), key="exact", engine="KB")
 
 
 def diff_rules(ctx, tk):
